@@ -63,7 +63,9 @@ def confusion(exp, got):
         cats.add('zero-sign')
     rest_l = set(lost) - zs if 'zero-sign' in cats else set(lost)
     rest_g = set(gained) - zs if 'zero-sign' in cats else set(gained)
-    if rest_l or rest_g:
+    if (rest_l and not rest_g) or (rest_g and not rest_l):
+        cats.add('count')       # same kinds of leaves, different multiplicity: a repeat count was lost
+    elif rest_l or rest_g:
         if {t for t, _ in rest_l} != {t for t, _ in rest_g}:
             cats.add('type')
         else:
